@@ -149,7 +149,7 @@ impl Adapter for SqliteAdapter {
             .filter_map(|key| {
                 let key: String = key.unwrap();
                 if key.ends_with(ext) {
-                    Some(key)
+                    Some(key.strip_suffix(ext).unwrap().to_string())
                 } else {
                     None
                 }
